@@ -1058,28 +1058,35 @@ def is_blob_record(record):
 def copyTransactionsFromTo(source, destination):
     for trans in source.iterator():
         destination.tpc_begin(trans, trans.tid, trans.status)
-        for record in trans:
-            blobfilename = None
-            if is_blob_record(record.data):
-                try:
-                    blobfilename = source.loadBlob(record.oid, record.tid)
-                except POSKeyError:
-                    pass
-            if blobfilename is not None:
-                fd, name = tempfile.mkstemp(
-                    prefix='CTFT',
-                    suffix='.tmp', dir=destination.fshelper.temp_dir)
-                os.close(fd)
-                with open(blobfilename, 'rb') as sf:
-                    with open(name, 'wb') as df:
-                        utils.cp(sf, df)
-                destination.restoreBlob(record.oid, record.tid, record.data,
-                                        name, record.data_txn, trans)
-            else:
-                destination.restore(record.oid, record.tid, record.data,
-                                    '', record.data_txn, trans)
+        try:
+            for record in trans:
+                blobfilename = None
+                if is_blob_record(record.data):
+                    try:
+                        blobfilename = source.loadBlob(record.oid, record.tid)
+                    except POSKeyError:
+                        pass
+                if blobfilename is not None:
+                    fd, name = tempfile.mkstemp(
+                        prefix='CTFT',
+                        suffix='.tmp', dir=destination.fshelper.temp_dir)
+                    os.close(fd)
+                    with open(blobfilename, 'rb') as sf:
+                        with open(name, 'wb') as df:
+                            utils.cp(sf, df)
+                    destination.restoreBlob(
+                        record.oid, record.tid, record.data,
+                        name, record.data_txn, trans)
+                else:
+                    destination.restore(record.oid, record.tid, record.data,
+                                        '', record.data_txn, trans)
 
-        destination.tpc_vote(trans)
+            destination.tpc_vote(trans)
+        except BaseException:
+            # Don't leave the destination in the middle of a transaction
+            # (and holding its commit lock).
+            destination.tpc_abort(trans)
+            raise
         destination.tpc_finish(trans)
 
 
